@@ -62,9 +62,25 @@ func (fe *fileEdits) repl(from, to token.Pos, text string) {
 	fe.edits = append(fe.edits, edit{off: o, del: fset.Position(to).Offset - o, text: text, seq: nseq})
 }
 
+// funcRanges lists every function declaration of the package, to name the function a site is in.
+var funcRanges []struct {
+	from, to token.Pos
+	name     string
+}
+
+func funcOf(pos token.Pos) string {
+	for _, fr := range funcRanges {
+		if pos >= fr.from && pos < fr.to {
+			return fr.name
+		}
+	}
+	return "?"
+}
+
+// site ids: file:line:col(function). Signatures of findings use only file and function.
 func site(pos token.Pos) string {
 	p := fset.Position(pos)
-	return fmt.Sprintf("%q", fmt.Sprintf("%s:%d:%d", filepath.Base(p.Filename), p.Line, p.Column))
+	return fmt.Sprintf("%q", fmt.Sprintf("%s:%d:%d(%s)", filepath.Base(p.Filename), p.Line, p.Column, funcOf(pos)))
 }
 
 func warn(pos token.Pos, format string, a ...any) {
@@ -396,6 +412,24 @@ func main() {
 		}
 		files = append(files, f)
 		fes = append(fes, &fileEdits{name: m, src: src})
+		for _, d := range f.Decls {
+			if fd, ok := d.(*ast.FuncDecl); ok && fd.Body != nil {
+				name := fd.Name.Name
+				if fd.Recv != nil && len(fd.Recv.List) == 1 {
+					t := fd.Recv.List[0].Type
+					if st, ok := t.(*ast.StarExpr); ok {
+						t = st.X
+					}
+					if id, ok := t.(*ast.Ident); ok {
+						name = id.Name + "." + name
+					}
+				}
+				funcRanges = append(funcRanges, struct {
+					from, to token.Pos
+					name     string
+				}{fd.Pos(), fd.End(), name})
+			}
+		}
 	}
 	info = &types.Info{
 		Types: map[ast.Expr]types.TypeAndValue{},
